@@ -18,9 +18,11 @@ VARIABLES
     l,          \* next trace line
     ids,        \* slot |-> observed identity (node handle, edge value words)
     viol,       \* set of [p, l, k]: property tag, line, kind
+    pend,       \* the call announced by the last "Call" line (<< >>: none); a
+                \* crash or hang is attributed to it
     done
 
-tvars == <<vars, l, ids, viol, done>>
+tvars == <<vars, l, ids, viol, pend, done>>
 
 TraceLog == ndJsonDeserialize(IOEnv.TRACE)
 
@@ -97,8 +99,28 @@ DevCopy(ev, out) ==
          IN IF D # {} /\ \A i \in D : A[i] = 0 /\ R[i] = Inf
             THEN "COPY:identity-reduced->EV+relation:implicit-zero-becomes-infinity" ELSE ""
 
+\* Saturation (REACHABLE_SATUR and SATURATION_FORWARD over a pregen relation)
+\* interprets a skipped level of the relation as "variable unchanged", which
+\* is what it means only in an identity-reduced forest.  With a fully- or
+\* quasi-reduced relation forest results can be wrong and the call can crash.
+\* Recognised by the relation operand's forest alone; with an identity-reduced
+\* relation forest every saturation call is checked in full.
+SatRelKey(op, b) ==
+    IF op \in {"REACH_SAT_F", "REACH_SAT_B", "SATURATION_FORWARD"} /\ LiveEdge(b)
+       /\ fors[edges[b].f].rel /\ fors[edges[b].f].rule # "I"
+    THEN (IF op = "SATURATION_FORWARD" THEN "SATURATION_FORWARD" ELSE "REACHABLE_SATUR")
+         \o ":relation-forest-not-identity-reduced"
+    ELSE ""
+
+DevSat(ev, out) ==
+    IF ev.e = "Bin" THEN SatRelKey(ev.op, ev.b)
+    ELSE IF ev.e = "Sat" /\ Len(ev.evs) > 0 THEN SatRelKey("SATURATION_FORWARD", ev.evs[1])
+    ELSE ""
+
 DevWrong(ev, out) ==
-    IF DevDistInc(ev, out) # "" THEN DevDistInc(ev, out) ELSE DevCopy(ev, out)
+    IF DevDistInc(ev, out) # "" THEN DevDistInc(ev, out)
+    ELSE IF DevCopy(ev, out) # "" THEN DevCopy(ev, out)
+    ELSE DevSat(ev, out)
 
 \* compare the specification's outcome with the recorded one
 OutcomeViol(out, ev, p) ==
@@ -107,10 +129,12 @@ OutcomeViol(out, ev, p) ==
     THEN IF ev.ok = 1
          THEN IF ~Has(ev.res, "fn")
               THEN (IF DevDistInc(ev, out) # "" THEN {V(p, "KF:" \o DevDistInc(ev, out))}
+                    ELSE IF DevSat(ev, out) # "" THEN {V(p, "KF:" \o DevSat(ev, out))}
                     ELSE {V(p, "result-cannot-be-evaluated-" \o ev.res.oerr)})
               ELSE IF FnEq(out.fn, ev.res.fn) THEN {}
               ELSE LET k == DevWrong(ev, out) IN
                    IF k # "" THEN {V(p, "KF:" \o k)} ELSE {V(p, "wrong-function")}
+         ELSE IF DevSat(ev, out) # "" THEN {V(p, "KF:" \o DevSat(ev, out))}
          ELSE {V(p, "unexpected-error-" \o ev.err)}
     ELSE IF ev.ok = 1
          THEN LET k == DevErrShortcut(ev, out) IN
@@ -495,8 +519,12 @@ DoReadNew(ev) ==
          /\ err' = ev.err
          /\ Same(<<lib, doms, fors, edges, nextFid, files, ids>>)
 
+\* a crash, abort or hang inside the library: attributed to the pending call
 DoCrash(ev) ==
-    /\ viol' = viol \cup {V("CRASH", ev.cmd)}
+    /\ viol' = viol \cup
+          (IF pend # << >> /\ SatRelKey(pend.op, pend.b) # ""
+           THEN {V(IF pend.op = "SATURATION_FORWARD" THEN "C20" ELSE "C08", "KF:" \o SatRelKey(pend.op, pend.b))}
+           ELSE {V("CRASH", ev.cmd)})
     /\ Same(<<vars, ids>>)
 
 Ignored == {"NewNode", "DelNode", "Recycle", "CTAdd", "CTHit", "CTDel", "Snap", "End", "Tag",
@@ -538,9 +566,12 @@ Step ==
          [] ev.e = "Read"    -> DoRead(ev)
          [] ev.e = "ReadNew" -> DoReadNew(ev)
          [] ev.e = "Crash"   -> DoCrash(ev)
+         [] ev.e = "Call"    -> Same(<<vars, ids, viol>>)
          [] ev.e \in Ignored -> Same(<<vars, ids, viol>>)
          [] OTHER            -> /\ viol' = viol \cup {V("MODEL", "unknown-event-" \o ev.e)}
                                 /\ Same(<<vars, ids>>)
+    /\ pend' = IF TraceLog[l].e = "Call" THEN TraceLog[l]
+               ELSE IF TraceLog[l].e \in {"Bin", "Un", "Sat", "Reset"} THEN << >> ELSE pend
     /\ l' = l + 1
     /\ done' = FALSE
 
@@ -549,11 +580,11 @@ Finish ==
     /\ ~done
     /\ PrintT(<<"RESULT", ToJson([lines |-> Len(TraceLog), viol |-> viol])>>)
     /\ done' = TRUE
-    /\ Same(<<vars, l, ids, viol>>)
+    /\ Same(<<vars, l, ids, viol, pend>>)
 
 TraceInit ==
     /\ Init
-    /\ l = 1 /\ ids = << >> /\ viol = {} /\ done = FALSE
+    /\ l = 1 /\ ids = << >> /\ viol = {} /\ pend = << >> /\ done = FALSE
 
 TraceNext == Step \/ Finish
 
